@@ -371,6 +371,72 @@ class _PredicateCalls(ast.NodeTransformer):
         return n
 
 
+class _AnyAsOr(ast.NodeTransformer):
+    """`any(..)` over a STATIC list of conditions is their disjunction (same truth value, same evaluation order, stops at the same one):
+
+        any([a, b, c]) / any((a, b, c))                      ->  a or b or c
+        any(self._tests(o))   with `def _tests(self, o): yield a; yield b; ..` (nothing but yield statements)  ->  a or b or ..
+        any(rule(self, o) for rule in Cls._rules)   with `_rules = (_m1, _m2, ..)` a class-level tuple of methods of the class
+                                                             ->  self._m1(o) or self._m2(o) or ..
+    Anything else is left as it is."""
+
+    def __init__(self, fn, resolve):
+        self.fn, self.resolve = fn, resolve
+        self.recv = fn.args.args[0].arg if fn.args.args else "self"
+        own = getattr(fn, "_sa_owner", None)
+        self.pkg, self.cls = own if own is not None else (None, None)
+
+    def _table(self, e):
+        """the class-level tuple / list of method names `e` reads (`Cls.T`, `self.T`, `cls.T`, `type(self).T`), as names, or None"""
+        if self.pkg is None or not isinstance(e, ast.Attribute):
+            return None
+        b = e.value
+        okb = (isinstance(b, ast.Name) and b.id in (self.recv, "cls", str(self.cls).split(".")[-1])) or \
+            (isinstance(b, ast.Call) and isinstance(b.func, ast.Name) and b.func.id == "type" and len(b.args) == 1 and isinstance(b.args[0], ast.Name) and b.args[0].id == self.recv)
+        if not okb:
+            return None
+        try:
+            _, node = self.pkg.resolve_attr(self.cls, e.attr)
+        except Exception:
+            return None
+        if not isinstance(node, (ast.Tuple, ast.List)) or not node.elts or not all(isinstance(x, ast.Name) for x in node.elts):
+            return None
+        names = [x.id for x in node.elts]
+        return names if all(isinstance(self.resolve(nm), ast.FunctionDef) for nm in names) else None
+
+    def visit_Call(self, n):
+        import copy
+        self.generic_visit(n)
+        if not (isinstance(n.func, ast.Name) and n.func.id == "any" and len(n.args) == 1 and not n.keywords):
+            return n
+        a, elts = n.args[0], None
+        if isinstance(a, (ast.List, ast.Tuple)) and a.elts and not any(isinstance(x, ast.Starred) for x in a.elts):
+            elts = list(a.elts)
+        elif isinstance(a, ast.Call) and isinstance(a.func, ast.Attribute) and isinstance(a.func.value, ast.Name) and a.func.value.id == self.recv \
+                and not a.keywords and all(isinstance(x, ast.Name) for x in a.args) and self.resolve is not None:
+            callee = self.resolve(a.func.attr)
+            if isinstance(callee, ast.FunctionDef) and callee is not self.fn and not callee.decorator_list and len(callee.args.args) == len(a.args) + 1 \
+                    and not (callee.args.vararg or callee.args.kwarg or callee.args.kwonlyargs):
+                body = [st for st in callee.body if not (isinstance(st, ast.Expr) and isinstance(st.value, ast.Constant))]
+                if body and all(isinstance(st, ast.Expr) and isinstance(st.value, ast.Yield) and st.value.value is not None for st in body):
+                    m = {callee.args.args[0].arg: ast.Name(id=self.recv, ctx=ast.Load())}
+                    m.update({p.arg: x for p, x in zip(callee.args.args[1:], a.args)})
+                    elts = [_SubstNames(m).visit(copy.deepcopy(st.value.value)) for st in body]
+        elif isinstance(a, (ast.GeneratorExp, ast.ListComp)) and len(a.generators) == 1 and not a.generators[0].ifs and isinstance(a.generators[0].target, ast.Name) \
+                and self.resolve is not None:
+            v = a.generators[0].target.id
+            names = self._table(a.generators[0].iter)
+            e = a.elt
+            if names and isinstance(e, ast.Call) and isinstance(e.func, ast.Name) and e.func.id == v and not e.keywords and e.args \
+                    and isinstance(e.args[0], ast.Name) and e.args[0].id == self.recv \
+                    and not any(isinstance(x, ast.Name) and x.id == v for arg in e.args for x in ast.walk(arg)):
+                elts = [ast.Call(func=ast.Attribute(value=ast.Name(id=self.recv, ctx=ast.Load()), attr=nm, ctx=ast.Load()),
+                                 args=[copy.deepcopy(x) for x in e.args[1:]], keywords=[]) for nm in names]
+        if not elts:
+            return n
+        return ast.copy_location(elts[0] if len(elts) == 1 else ast.BoolOp(op=ast.Or(), values=elts), n)
+
+
 def eq_disjuncts(fn: ast.FunctionDef, resolve=None):
     """DNF of the value `__eq__` returns for two instances. -> (list of literal lists, problems).  Predicate helpers of the same
     class called on self (`self._same_grain(o)`) are read through: `resolve(name) -> FunctionDef | None`, by default the methods of
@@ -381,8 +447,11 @@ def eq_disjuncts(fn: ast.FunctionDef, resolve=None):
     problems = []
     resolve = resolve or owner_resolver(fn)
     body = list(fn.body)
+    if resolve is not None and any(isinstance(n, ast.Call) and isinstance(n.func, ast.Name) and n.func.id == "any" for n in ast.walk(fn)):
+        tr0 = _AnyAsOr(fn, resolve)
+        body = [ast.fix_missing_locations(tr0.visit(copy.deepcopy(st))) for st in body]
     if resolve is not None and any(isinstance(n, ast.Call) and isinstance(n.func, ast.Attribute) and isinstance(n.func.value, ast.Name) and n.func.value.id == selfname
-                                   for n in ast.walk(fn)):
+                                   for st in body for n in ast.walk(st)):
         tr = _PredicateCalls(fn, resolve)
         body = [ast.fix_missing_locations(tr.visit(copy.deepcopy(st))) for st in body]
     d = _body_dnf(body, {}, problems, (lambda e: _inline_predicates(e, selfname, fn, resolve)) if resolve is not None else (lambda e: e))
